@@ -1,6 +1,21 @@
 /-
 Regular expressions as Go's `regexp/syntax` parses them (core-only, executable).
-The generated terms in `Snowflake/Generated/Regex.lean` are values of `Rx`.
+The generated terms in `Snowflake/Generated/*.lean` are values of `Rx`.
+
+* text = list of code points that remember their original bytes (`Tok`), decoded from bytes the way
+  Go's `regexp` steps over a `[]byte` (`utf8.DecodeRune`: one U+FFFD of width 1 per offending byte);
+* `Matches r l m t`  — denotation: `r` matches the segment `m` standing between the left context `l`
+  (reversed) and the right context `t`;
+* `run`              — leftmost-first (priority) backtracking matcher with continuations, structurally
+  recursive on the expression so that `decide +kernel` evaluates it (`star` is fuelled by the
+  remaining input);
+* `findFrom`/`find`  — leftmost match with Go's priority among the matches starting there;
+* `replPieces`/`replaceAllFunc`/`replaceAll` — the loop of `regexp.(*Regexp).replaceAll`
+  (non-overlapping, left to right, Go's rules for empty matches);
+* structural analyses used by theorems about generated expressions: `minWeight`, `anchorFree`,
+  `eraseCaps`, `factors`.
+
+Proofs are in `Snowflake/Proofs/Rx.lean`.
 -/
 namespace Snowflake
 
@@ -36,6 +51,266 @@ def size : Rx → Nat
   | .star a => a.size + 1
   | .cap _ a => a.size + 1
   | _ => 1
+
+/-! ## Text: code points with their original bytes -/
+
+/-- One step of Go's `regexp` over a `[]byte`: the code point and the bytes it was decoded from. -/
+structure Tok where
+  r : Nat
+  bs : List UInt8
+deriving Repr, DecidableEq
+
+def bytesOf (t : List Tok) : List UInt8 := t.flatMap (·.bs)
+
+def inR (lo hi x : Nat) : Bool := Nat.ble lo x && Nat.ble x hi
+
+/-- `utf8.DecodeRune` (Go 1.23) on a first byte and the up to three bytes that follow it (`none` = end of
+input): code point and width; `(U+FFFD, 1)` for every offending byte. -/
+def decodeRune4 (c0 : UInt8) (o1 o2 o3 : Option UInt8) : Nat × Nat :=
+  let p0 := c0.toNat
+  if p0 < 0x80 then (p0, 1)
+  else if p0 < 0xC2 then (0xFFFD, 1)
+  else if p0 < 0xE0 then
+    match o1 with
+    | some c1 =>
+      if inR 0x80 0xBF c1.toNat then ((p0 % 32) * 64 + c1.toNat % 64, 2) else (0xFFFD, 1)
+    | none => (0xFFFD, 1)
+  else if p0 < 0xF0 then
+    match o1, o2 with
+    | some c1, some c2 =>
+      if inR (if p0 = 0xE0 then 0xA0 else 0x80) (if p0 = 0xED then 0x9F else 0xBF) c1.toNat
+          && inR 0x80 0xBF c2.toNat then
+        ((p0 % 16) * 4096 + (c1.toNat % 64) * 64 + c2.toNat % 64, 3)
+      else (0xFFFD, 1)
+    | _, _ => (0xFFFD, 1)
+  else if p0 < 0xF5 then
+    match o1, o2, o3 with
+    | some c1, some c2, some c3 =>
+      if inR (if p0 = 0xF0 then 0x90 else 0x80) (if p0 = 0xF4 then 0x8F else 0xBF) c1.toNat
+          && inR 0x80 0xBF c2.toNat && inR 0x80 0xBF c3.toNat then
+        ((p0 % 8) * 262144 + (c1.toNat % 64) * 4096 + (c2.toNat % 64) * 64 + c3.toNat % 64, 4)
+      else (0xFFFD, 1)
+    | _, _, _ => (0xFFFD, 1)
+  else (0xFFFD, 1)
+
+def nth : List UInt8 → Nat → Option UInt8
+  | [], _ => none
+  | b :: _, 0 => some b
+  | _ :: bs, i + 1 => nth bs i
+
+/-- `utf8.DecodeRune` on a byte slice. -/
+def decodeRune : List UInt8 → Nat × Nat
+  | [] => (0xFFFD, 0)
+  | c0 :: rest => decodeRune4 c0 (nth rest 0) (nth rest 1) (nth rest 2)
+
+/-- Decode with explicit fuel (one unit per code point). -/
+def decodeF : Nat → List UInt8 → List Tok
+  | 0, _ => []
+  | _, [] => []
+  | n + 1, b :: bs =>
+    let d := decodeRune (b :: bs)
+    ⟨d.1, b :: bs.take (d.2 - 1)⟩ :: decodeF n (bs.drop (d.2 - 1))
+
+/-- The text Go's `regexp` sees for a byte slice. -/
+def decode (bs : List UInt8) : List Tok := decodeF bs.length bs
+
+/-! ## Denotation -/
+
+def clsMem (rs : List (Nat × Nat)) (x : Nat) : Bool := rs.any fun p => Nat.ble p.1 x && Nat.ble x p.2
+
+/-- Line-anchor test: the neighbouring text (towards the anchor) is empty or starts with `\n`. -/
+def atLine : List Tok → Bool
+  | [] => true
+  | x :: _ => x.r == 10
+
+/-- `Matches r l m t`: `r` matches exactly the segment `m`, where `l` is the text to the left of the
+segment (reversed, nearest first) and `t` the text to its right. -/
+inductive Matches : Rx → List Tok → List Tok → List Tok → Prop
+  | eps (l t) : Matches .eps l [] t
+  | cls (rs l x t) : clsMem rs x.r = true → Matches (.cls rs) l [x] t
+  | cat {a b l m₁ m₂ t} : Matches a l m₁ (m₂ ++ t) → Matches b (m₁.reverse ++ l) m₂ t →
+      Matches (.cat a b) l (m₁ ++ m₂) t
+  | altL {a b l m t} : Matches a l m t → Matches (.alt a b) l m t
+  | altR {a b l m t} : Matches b l m t → Matches (.alt a b) l m t
+  | starNil (a l t) : Matches (.star a) l [] t
+  | starCons {a l m₁ m₂ t} : Matches a l m₁ (m₂ ++ t) → Matches (.star a) (m₁.reverse ++ l) m₂ t →
+      Matches (.star a) l (m₁ ++ m₂) t
+  | cap {i a l m t} : Matches a l m t → Matches (.cap i a) l m t
+  | bot (t) : Matches .bot [] [] t
+  | eot (l) : Matches .eot l [] []
+  | bol (l t) : atLine l = true → Matches .bol l [] t
+  | eol (l t) : atLine t = true → Matches .eol l [] t
+
+/-! ## Backtracking matcher -/
+
+/-- Position: (text to the left, reversed; text to the right). -/
+abbrev Pos := List Tok × List Tok
+
+/-- Greedy iteration of `step` with priority "one more round, then stop".  Rounds that consume
+nothing follow Go's compiled form (`x*` for a nullable `x` is `(x+)?`, and a thread that comes back to
+the loop's split instruction at the same position is dropped): an empty *first* round leaves the loop,
+an empty later round is abandoned.  Either way every continued round consumes input, which is what
+makes `fuel = remaining input` sufficient. -/
+def starLoop {α} (step : Pos → (Pos → Option α) → Option α) :
+    Nat → Bool → Pos → (Pos → Option α) → Option α
+  | 0, _, p, k => k p
+  | n + 1, first, p, k =>
+    match step p (fun q =>
+        if q.2.length < p.2.length then starLoop step n false q k
+        else if first then k q else none) with
+    | some v => some v
+    | none => k p
+
+/-- Leftmost-first backtracking: the first success in priority order of `k` applied to an end position. -/
+def run {α} : Rx → Pos → (Pos → Option α) → Option α
+  | .eps, p, k => k p
+  | .cls rs, (l, x :: xs), k => if clsMem rs x.r then k (x :: l, xs) else none
+  | .cls _, (_, []), _ => none
+  | .cat a b, p, k => run a p (fun q => run b q k)
+  | .alt a b, p, k =>
+    match run a p k with
+    | some v => some v
+    | none => run b p k
+  | .star a, p, k => starLoop (fun p' k' => run a p' k') p.2.length true p k
+  | .cap _ a, p, k => run a p k
+  | .bot, p, k => if p.1.isEmpty then k p else none
+  | .eot, p, k => if p.2.isEmpty then k p else none
+  | .bol, p, k => if atLine p.1 then k p else none
+  | .eol, p, k => if atLine p.2 then k p else none
+
+/-- The preferred match starting exactly here: `(matched, rest)`. -/
+def matchAt (r : Rx) (l xs : List Tok) : Option (List Tok × List Tok) :=
+  match run r (l, xs) (fun q => some q.2) with
+  | some t => some (xs.take (xs.length - t.length), t)
+  | none => none
+
+/-- Leftmost match at or after the current position: `(skipped, matched, rest)`. -/
+def findFrom (r : Rx) : List Tok → List Tok → Option (List Tok × List Tok × List Tok)
+  | l, [] =>
+    match matchAt r l [] with
+    | some (m, t) => some ([], m, t)
+    | none => none
+  | l, x :: xs =>
+    match matchAt r l (x :: xs) with
+    | some (m, t) => some ([], m, t)
+    | none =>
+      match findFrom r (x :: l) xs with
+      | some (s, m, t) => some (x :: s, m, t)
+      | none => none
+
+/-- `(*Regexp).Find` on a whole text. -/
+def find (r : Rx) (xs : List Tok) : Option (List Tok × List Tok × List Tok) := findFrom r [] xs
+
+/-- `(*Regexp).Match`. -/
+def hasMatch (r : Rx) (b : List UInt8) : Bool := (find r (decode b)).isSome
+
+/-! ## `ReplaceAll` -/
+
+/-- Output of the replacement loop before rendering: text copied verbatim, or a match to be replaced. -/
+inductive Piece
+  | keep (t : List Tok)
+  | hit (m : List Tok)
+deriving Repr, DecidableEq
+
+/-- The loop of `regexp.(*Regexp).replaceAll`.  `l` = text before `searchPos` (reversed), `xs` = text
+from `searchPos`, `am` = "`searchPos` equals the end of the previous match" (Go: an empty match
+immediately after another match is not replaced).  Each round advances `searchPos`, so
+`fuel = xs.length + 1` is enough. -/
+def replPieces (r : Rx) : Nat → List Tok → Bool → List Tok → List Piece
+  | 0, _, _, xs => [.keep xs]
+  | n + 1, l, am, xs =>
+    match findFrom r l xs with
+    | none => [.keep xs]
+    | some (s, m, t) =>
+      let l' := m.reverse ++ (s.reverse ++ l)
+      let here := m.isEmpty && s.isEmpty          -- empty match at searchPos itself
+      let head := if here && am then [Piece.keep s] else [Piece.keep s, Piece.hit m]
+      if here then
+        match t with
+        | [] => head
+        | y :: ys => head ++ (Piece.keep [y] :: replPieces r n (y :: l') false ys)
+      else head ++ replPieces r n l' true t
+
+def render (f : List UInt8 → List UInt8) : List Piece → List UInt8
+  | [] => []
+  | .keep t :: ps => bytesOf t ++ render f ps
+  | .hit m :: ps => f (bytesOf m) ++ render f ps
+
+/-- `(*Regexp).ReplaceAllFunc(b, f)`. -/
+def replaceAllFunc (r : Rx) (b : List UInt8) (f : List UInt8 → List UInt8) : List UInt8 :=
+  let toks := decode b
+  render f (replPieces r (toks.length + 1) [] false toks)
+
+/-- `(*Regexp).ReplaceAll(b, repl)` for a replacement without `$` (no template expansion). -/
+def replaceAll (r : Rx) (b : List UInt8) (repl : List UInt8) : List UInt8 :=
+  replaceAllFunc r b (fun _ => repl)
+
+/-! ## Structural analyses -/
+
+/-- Weight of a byte string under a per-byte weight. -/
+def weightB (w : UInt8 → Nat) : List UInt8 → Nat
+  | [] => 0
+  | b :: bs => w b + weightB w bs
+
+/-- Weight of a text = weight of its bytes. -/
+def weightT (w : UInt8 → Nat) (t : List Tok) : Nat := weightB w (bytesOf t)
+
+/-- Lower bound for the weight of a member of a class: a class made of single-rune ASCII ranges weighs
+at least the lightest of them; anything else is bounded by 0. -/
+def clsLB (w : UInt8 → Nat) : List (Nat × Nat) → Nat
+  | [] => 0
+  | [(lo, hi)] => if lo = hi ∧ lo < 128 then w (UInt8.ofNat lo) else 0
+  | (lo, hi) :: rest => min (if lo = hi ∧ lo < 128 then w (UInt8.ofNat lo) else 0) (clsLB w rest)
+
+/-- Lower bound for the weight of every match. -/
+def minWeight (w : UInt8 → Nat) : Rx → Nat
+  | .eps => 0
+  | .cls rs => clsLB w rs
+  | .cat a b => minWeight w a + minWeight w b
+  | .alt a b => min (minWeight w a) (minWeight w b)
+  | .star _ => 0
+  | .cap _ a => minWeight w a
+  | _ => 0
+
+/-- No anchors: matching does not depend on the surrounding text. -/
+def anchorFree : Rx → Bool
+  | .eps => true
+  | .cls _ => true
+  | .cat a b => anchorFree a && anchorFree b
+  | .alt a b => anchorFree a && anchorFree b
+  | .star a => anchorFree a
+  | .cap _ a => anchorFree a
+  | _ => false
+
+/-- No class of the expression contains the code point `c`: no match contains it. -/
+def avoids (c : Nat) : Rx → Bool
+  | .cls rs => !clsMem rs c
+  | .cat a b => avoids c a && avoids c b
+  | .alt a b => avoids c a && avoids c b
+  | .star a => avoids c a
+  | .cap _ a => avoids c a
+  | _ => true
+
+/-- Captures are transparent for matching. -/
+def eraseCaps : Rx → Rx
+  | .cat a b => .cat (eraseCaps a) (eraseCaps b)
+  | .alt a b => .alt (eraseCaps a) (eraseCaps b)
+  | .star a => .star (eraseCaps a)
+  | .cap _ a => eraseCaps a
+  | r => r
+
+/-- Top-level concatenation factors (captures erased), left to right. -/
+def factors : Rx → List Rx
+  | .cat a b => factors a ++ factors b
+  | .cap _ a => factors a
+  | .eps => []
+  | r => [eraseCaps r]
+
+/-- Top-level alternatives (captures erased), in priority order. -/
+def branches : Rx → List Rx
+  | .alt a b => branches a ++ branches b
+  | .cap _ a => branches a
+  | r => [eraseCaps r]
 
 end Rx
 end Snowflake
